@@ -4,6 +4,7 @@ package harness
 // faulted once (fault enumeration) plus drawn multi-fault sets.
 
 import (
+	"bytes"
 	"encoding/json"
 	"errors"
 	"fmt"
@@ -307,6 +308,7 @@ func execCall(tr *iavl.MutableTree, c FaultCall, importNodes []*iavl.ExportNode)
 
 type faultStats struct {
 	positions, errored, same, multi int
+	continued                       int // failed prunes after which the same handle committed again and later versions were re-read
 	kinds                       map[string]int
 }
 
@@ -367,6 +369,7 @@ func runFault(c FaultCase) (v *Violation, st faultStats) {
 		opts = append(opts, iavl.InitialVersionOption(w.Cfg.InitVer))
 	}
 	// one attempt: fresh image, cold handle, faults armed after Load
+	var lastTree *iavl.MutableTree // the handle of the most recent attempt (for the continuation after a failed prune)
 	attempt := func(fail []int) (callResult, *TraceDB, *dbm.MemDB, error) {
 		img := MemDBFrom(base)
 		tdb := NewTraceDBOn(img)
@@ -386,6 +389,7 @@ func runFault(c FaultCase) (v *Violation, st faultStats) {
 		}
 		r := execCall(tr, call, importNodes)
 		tdb.FailAt = nil
+		lastTree = tr
 		return r, tdb, img, nil
 	}
 	ref, tdb0, _, err := attempt(nil)
@@ -460,6 +464,16 @@ func runFault(c FaultCase) (v *Violation, st faultStats) {
 				return x, st
 			}
 		}
+		// a deletion of old versions that FAILED, and the application carries on with the same handle (the storage is
+		// healthy again): whatever the failed call left staged must not damage a version it was not deleting - the next
+		// commit on that handle writes the staged operations out (C04: later versions are never altered)
+		if call.Kind == "prune" && r.err != nil && !call.NoLoad && flush >= 100000 {
+			if x := continueAfterFailedPrune(lastTree, img, pre, call); x != nil {
+				x.Msg = where + ": " + x.Msg
+				return x, st
+			}
+			st.continued++
+		}
 	}
 	return nil, st
 }
@@ -507,6 +521,45 @@ func reopenAfterFault(img *dbm.MemDB, pre modelSnap, call FaultCall, r callResul
 	case "prune":
 		if lv != pre.latest {
 			return &Violation{Prop: "C17", Obs: "reopen.range", Msg: fmt.Sprintf("after the failed DeleteVersionsTo the latest version is %d (was %d)", lv, pre.latest)}
+		}
+	}
+	return nil
+}
+
+// continueAfterFailedPrune: Set + SaveVersion on the handle whose DeleteVersionsTo(n) just failed; if that commit is
+// accepted, every version above n (and the new one) must be intact when read through a fresh handle.
+func continueAfterFailedPrune(tr *iavl.MutableTree, img *dbm.MemDB, pre modelSnap, call FaultCall) (v *Violation) {
+	defer func() {
+		if x := recover(); x != nil {
+			v = &Violation{Prop: "C17", Obs: "continue.panic", Msg: fmt.Sprintf("continuing on the handle after the failed DeleteVersionsTo(%d) panics: %v", call.N, x)}
+		}
+	}()
+	if _, err := tr.Set([]byte("zz-after-failed-prune"), []byte("1")); err != nil {
+		return nil // (no claim: the handle refuses further work)
+	}
+	if _, _, err := tr.SaveVersion(); err != nil {
+		return nil
+	}
+	fresh := iavl.NewMutableTree(img, 0, true, iavl.NewNopLogger())
+	if _, err := fresh.Load(); err != nil {
+		return &Violation{Prop: "C17", Obs: "continue.load", Msg: fmt.Sprintf("DeleteVersionsTo(%d) failed, the next commit on the same handle succeeded, and the store no longer loads: %v", call.N, err)}
+	}
+	for ver := call.N + 1; ver <= pre.latest; ver++ {
+		vs, ok := pre.vers[ver]
+		if !ok {
+			continue
+		}
+		it, err := fresh.GetImmutable(ver)
+		if err != nil {
+			return &Violation{Prop: "C17", Obs: "continue.later_version", Msg: fmt.Sprintf("DeleteVersionsTo(%d) failed, the next commit on the same handle succeeded: version %d (not being deleted) cannot be obtained: %v", call.N, ver, err)}
+		}
+		if !bytes.Equal(it.Hash(), rhash(vs.Root, 0, false)) {
+			return &Violation{Prop: "C17", Obs: "continue.later_version", Msg: fmt.Sprintf("DeleteVersionsTo(%d) failed, next commit succeeded: version %d hash %x want %x", call.N, ver, it.Hash(), rhash(vs.Root, 0, false))}
+		}
+		var got []KV
+		_, err = it.Iterate(func(k, val []byte) bool { got = append(got, KV{cp(k), cp(val)}); return false })
+		if err != nil || !eqKVs(got, sortedKVs(vs.KV)) {
+			return &Violation{Prop: "C17", Obs: "continue.later_version", Msg: fmt.Sprintf("DeleteVersionsTo(%d) failed, the next commit on the same handle succeeded: version %d (not being deleted) reads %s,%v want %s", call.N, ver, fmtKVs(got), err, fmtKVs(sortedKVs(vs.KV)))}
 		}
 	}
 	return nil
@@ -621,6 +674,7 @@ func TestC17(t *testing.T) {
 		Count("C17", "fault_reported_as_error", st.errored)
 		Count("C17", "fault_irrelevant_same_result", st.same)
 		Count("C17", "multi_fault_sets", st.multi)
+		Count("C17", "failed_prune_then_commit_on_the_same_handle", st.continued)
 		ks := make([]string, 0, len(st.kinds))
 		for k := range st.kinds {
 			ks = append(ks, k)
